@@ -2,12 +2,29 @@ from pathlib import Path
 
 import toml
 
+from packaging.utils import canonicalize_name
+
 from codemodder.project_analysis.file_parsers.package_store import (
     FileType,
     PackageStore,
+    parse_requirement,
 )
 
 from .base_parser import BaseParser
+
+
+def poetry_requirement(name: str, spec) -> str:
+    """
+    Poetry versions are not always PEP 440 specifiers (`*`, `1.2.3`, `~1.2`, tables
+    with extras...). Keep at least the name of such an entry so that the package is
+    known to be declared.
+    """
+    version = spec.get("version", "") if isinstance(spec, dict) else spec
+    candidate = f"{name}{version}"
+    parsed = parse_requirement(candidate)
+    if parsed is not None and canonicalize_name(parsed.name) == canonicalize_name(name):
+        return candidate
+    return name
 
 
 class PyprojectTomlParser(BaseParser):
@@ -34,7 +51,7 @@ class PyprojectTomlParser(BaseParser):
 
         if poetry_data:
             poetry_dependencies = [
-                f"{name}{version}"
+                poetry_requirement(name, version)
                 for name, version in poetry_data.get("dependencies", {}).items()
                 if name != "python"
             ]
